@@ -119,6 +119,7 @@ void par_run(long n, workfn f, void *arg, struct res *tot);
 extern int G_workers;
 extern time_t E_libc_time_value;
 extern unsigned E_create_high_bits;
+extern int E_reinject_from_alloc, E_tif; extern unsigned long E_stale_calls;
 extern unsigned long E_env_asked; extern char E_env_last[64];      /* environment variables the code under test asked for (the harness answers "1000" to every name of its own) */
 extern double G_deadline;       /* absolute monotonic seconds; 0 = none */
 double now_s(void);
